@@ -17,10 +17,13 @@ ID = 'C17'
 LEVEL = 'proof'
 # the monotonicity of the rank scorers GENERATED from rankscore.py is an obligation while the translator accepts the source
 GEN_TIES = {'Rankscore': 'Props/GenTie_Rankscore_mono.v'}
-TIE = {'HighestAverages.evaluate': 'correspondence (stream ha-tie, model shared with C01)',
+TIE = {'HighestAverages.evaluate': 'correspondence (streams ha-tie and ha-mono-pairs, model shared with C01)',
        'component/divisor.py': 'translator (GenTie_Divisor.v, obligation of C01) + strictness lemmas Props/C17.v C17_builtin_strict',
        'component/rankscore.py': 'translator (GenTie_Rankscore.v, obligation of C13: all six scorers of Model/Convert.v rank_scores)',
        'convert.* additive folds, core.get_n_best': 'models shared with C13 / C09 (correspondence there); relational clauses on the implementation here',
+       'convert.RankedToPositionalVotes.convert (shared ranks)': 'correspondence (stream pos-tie against Model/Convert.v img_positional, unit C13 convert; theorems '
+                                                                 'C17_positional_shared / _leave_shared / _leave_pair / _rank_unranked / _added)',
+       'LargestRemainder.evaluate': 'model of C02 (Model/QuotaDistributor.v, correspondence there); the two elections of each paradox witness compared here (corpus lr-*.json)',
        'condorcet.Copeland/MinimaxCondorcet/Schulze': 'models of C05 (Model/Condorcet.v, correspondence there); relational clauses on the implementation here',
        'convert.RankedToCondorcetVotes.convert': 'correspondence (stream rc-tie against Model/Hybrids.v pairwise, unit C05+2; theorems C17_ballot_pairwise_exact, '
                                                  'C17_ballot_raises, C17_copeland_ballots, C17_minimax_ballots) + the exact delta evaluated on the implementation (stream rc-move-exact)',
@@ -29,9 +32,15 @@ TIE = {'HighestAverages.evaluate': 'correspondence (stream ha-tie, model shared 
        'sequential.PreferenceAddition.evaluate (+ _decouple_equal_rankings, _add_round_votes, Tie.reconcile)':
            'correspondence (streams pa-exhaustive-small, pa-random against Model/Bucklin.v; theorems C17_bucklin, C17_oklahoma, C17_preference_addition*)'}
 RULE = ('ha-tie: C01 generators (random, constructed quotient ties, zero-vote/caps) against the model. house: every such case and the '
-        'exhaustive small domain (<=3 parties, votes 0..3, n 1..4, 5 divisors) evaluated at n and n+1 on the implementation: no party\'s '
-        'definite seats drop; members of a reported tie are not worse off. votes: one party gets +1 / +10% / x2 / +1e30 votes, the others keep '
-        'theirs: its seats do not drop whenever the second result is tie-free. sole-winner: random ranked / approval / score profiles '
+        'exhaustive small domain (<=3 parties, votes 0..3, n 1..4, 5 divisors) evaluated at n and n+1 on the implementation, judged by the statement of '
+        'C17_house_exact: no party\'s sure seats drop; a tie Tie(T, r) at n is kept as Tie(T, r+1) with the same sure seats or resolved into one more '
+        'seat for every member. votes: one party gets +1 / +10% / x2 / +1e30 / +1/3 votes (also from zero; exhaustive small domain: every party +1), '
+        'the others keep theirs, judged by C17_votes_full: its sure seats and its possible total (tie seat included) do not drop, whatever way either '
+        'run ends. ha-mono-pairs: the perturbed election (n+1 / more votes) against the model, spec = the same two clauses against the base election. '
+        'sole-winner-positional-shared: 7 rank scorers, profiles with shared ranks: the sole winner moves up past plain / shared ranks, leaves a shared '
+        'rank, gets ranked when unranked, a ballot with it on top (shared ranks below) is added; pos-tie: the converter against the model on those '
+        'profiles. rc-rank-added-exact: ranking an unranked candidate / adding a ballot changes the pairwise dictionary exactly as C17_ballot_rank_exact / '
+        'C17_ballot_added_exact say; sole Copeland / minimax winner stays where proved (bullet: all; longer ballot: minimax margins / opposition). sole-winner: random ranked / approval / score profiles '
         '(3..5 candidates, 2..7 ballot types, truncation), every rule of the property; whenever evaluate(votes, 1) == [w], every single-ballot '
         'upward move of w (one place up, to the top; approve w; raise w\'s score) and every added ballot ranking w first (a bullet vote for all rules; '
         'also longer ballots for the additive rules and Oklahoma) must again give [w]. pa-*: PreferenceAddition.evaluate against the model on random / small exhaustive '
@@ -49,11 +58,19 @@ PARTIAL = ['Schulze sole-winner monotonicity: REFUTED for votelib\'s ranking by 
            'C17_oklahoma_leave_shared, C17_preference_addition_leave_shared / _leave_pair); refuted for the loop as written: C17_bucklin_shared_refuted, finding C17-bucklin-splice-offset (fixed). '
            'Other single-ballot improvements of a ballot with shared ranks (e.g. several steps at once that are not a chain of these) fall under C17_preference_addition_split_general per case',
            'Bucklin with a new ballot that ranks further candidates below the winner: refuted (C17_bucklin_added_full_refuted, the participation failure of Bucklin); proved for the bullet vote and for any such ballot under Oklahoma',
-           'vote monotonicity with zero-vote parties or when the larger run ends in a tie or with caps exhausted: relational checker only',
+           'highest averages: both clauses proved in full (C17_house_exact / C17_house_tie, C17_votes_full: non-strict divisors, zero votes, caps, ties in either run); '
+           'hypotheses: divisor positive and non-decreasing on seat counts >= 0, votes >= 0, previous gains >= 0, the party present in both vote vectors',
+           'largest remainder is not claimed by the property: Alabama paradox and the loss of a seat after gaining a vote under a rounded quota are kernel-checked on the '
+           'model (C17_lr_house_refuted, C17_lr_votes_droop_refuted) and replayed; vote monotonicity under the exact Hare quota is checked per case only',
            'positional rules: proved for every built-in scorer that is non-increasing along the ballot - all of Borda, Dowdall, modified Borda, fixed top; Geometric with base >= 1; '
-           'SequenceBased with a non-increasing sequence ending non-negative (C17_scorer_ok, C17_positional_any); refuted otherwise (C17_scorers_conditions_needed); ballots of plain ranks',
+           'SequenceBased with a non-increasing sequence ending non-negative (C17_scorer_ok, C17_positional_any); refuted otherwise (C17_scorers_conditions_needed); '
+           'changed ballots with shared ranks: C17_positional_shared / _leave_shared / _leave_pair; an unranked winner ranked and an added ballot need non-negative scores '
+           '(C17_positional_rank_unranked, C17_positional_added; Borda with a negative base refuted: C17_positional_negative_refuted)',
            'Copeland / minimax on ballots: proved through the converter model for a winner moving up from a rank of its own or out of a shared rank (C17_copeland_ballots, C17_minimax_ballots, '
-           'C17_copeland_ballots_leave, C17_minimax_ballots_leave; unranked_at_bottom=True, the default); an ADDED ballot and an unranked winner being ranked are checker-decided']
+           'C17_copeland_ballots_leave, C17_minimax_ballots_leave; unranked_at_bottom=True, the default), an unranked winner being ranked (C17_copeland_ballots_rank, '
+           'C17_minimax_ballots_rank), an added bullet vote (C17_*_ballots_added_bullet), any added ballot with the winner alone on top for minimax margins / pairwise opposition '
+           '(C17_minimax_ballots_added); REFUTED for a longer added ballot under Copeland and minimax winning votes (C17_copeland_added_long_refuted, '
+           'C17_minimax_winvotes_added_long_refuted: participation failures of the methods, like Bucklin); unranked_at_bottom=False is not modelled']
 TRUSTED = []
 ASSUMPTIONS = ['a "single ballot" is one unit of weight of one ballot type of the profile dictionary']
 
